@@ -1,4 +1,5 @@
 import MidoProofs.Props.C11
+import MidoProofs.Props.C11b
 #print axioms Mido.C11_close_idem
 #print axioms Mido.C11_close_log
 #print axioms Mido.C11_close_log_healthy
@@ -11,3 +12,5 @@ import MidoProofs.Props.C11
 #print axioms Mido.C11_block_prompt
 #print axioms Mido.C11_multi_nonblocking
 #print axioms Mido.C11_multi_prompt
+#print axioms Mido.C11_iter_close_anywhere
+#print axioms Mido.iterAll_spec
